@@ -5,8 +5,9 @@ budget=${1:-30}
 for d in /verif/seeded/*/; do
   n=$(basename $d); id=${n%%-*}
   # meta.json may name another check that catches the change, or declare it outside the property
-  by=$(python3 -c "import json;v=json.load(open('$d/meta.json')).get('verification',{});print(v.get('caught_by','') if v.get('in_scope',True) else 'SKIP')" 2>/dev/null)
+  by=$(python3 -c "import json;v=json.load(open('$d/meta.json')).get('verification',{});print('UNDET' if v.get('undetected') else (v.get('caught_by','') if v.get('in_scope',True) else 'SKIP'))" 2>/dev/null)
   [ "$by" = "SKIP" ] && { echo "$n skipped (recorded as outside the property as stated)"; continue; }
+  [ "$by" = "UNDET" ] && { echo "$n skipped (recorded as not detected, see its meta.json)"; continue; }
   [ -n "$by" ] && id=$by
   git -C /repo apply $d/patch.diff || { echo "$n: patch does not apply"; continue; }
   python3 /verif/run.py check $id --budget $budget > /tmp/seed-$n.log 2>&1; rc=$?
